@@ -62,7 +62,7 @@ pub fn check_batch(b: &LpBatch, probe: &Probe) -> Verdict {
     super::linerules::check_rule_batch("C08", b.host, &blocks, &exp, probe, &reduce)
 }
 
-const ALPHA: &[&str] = &["abc", "x1", "xy", "a b", "  xy  ", "Abc", "é1", "", "  ", "TODO: x y", "\u{a0}abc\u{3000}", "\u{2003}"];
+const ALPHA: &[&str] = &["abc", "x1", "xy", "a b", "  xy  ", "Abc", "é1", "", "  ", "TODO: x y", "\u{a0}abc\u{3000}", "\u{2003}", "--"];
 
 pub fn enumerated(max_len: usize, batch: usize) -> Vec<LpBatch> {
     let mut specs = vec![];
@@ -97,12 +97,12 @@ pub fn random_batch() -> BoxedStrategy<LpBatch> {
 }
 
 pub fn run(run: &mut Run) {
-    run.rule = "enumerated: every line sequence of length 0..k (k=4 quick, 5 thorough) over a 10-line alphabet (matching, non-matching, indented, blank, partially matching lines) x 7 anchored/unanchored patterns with hand-written predicates; random: blocks of 5..150 lines incl. Unicode. Non-trivial block = at least 2 non-blank lines and (matching and failing lines mixed, a blank line, or a padded line); distinct by (batch, block).".into();
+    run.rule = "enumerated: every line sequence of length 0..k (k=4 quick, 5 thorough) over a 13-line alphabet (matching, non-matching, indented, blank, partially matching lines) x 12 anchored/unanchored patterns with hand-written predicates (5 of them can match the empty string, one is a bare zero-width assertion); random: blocks of 5..150 lines incl. Unicode. Non-trivial block = at least 2 non-blank lines and (matching and failing lines mixed, a blank line, or a padded line); distinct by (batch, block).".into();
     run.assumptions = vec![
         "content lines are shell/ruby words (block discovery itself is C03)".into(),
         "patterns come from a fixed family with hand-written predicates".into(),
     ];
     let k = run.tier.pick(4, 5);
-    run.enumerate("enum", enumerated(k, 400), Some(&format!("all line sequences of length <= {k} over the stated alphabet x 7 patterns")), check_batch);
+    run.enumerate("enum", enumerated(k, 400), Some(&format!("all line sequences of length <= {k} over the stated alphabet x 12 patterns")), check_batch);
     run.random("long", run.tier.pick(400, 8000), random_batch, check_batch);
 }
